@@ -408,16 +408,14 @@ func HarnessFmtLayout() {
 // reference, independent of the code under test).
 func verifSplitLines(s string) []string {
 	out := []string{}
-	cur := ""
+	start := 0
 	for i := 0; i < len(s); i++ {
 		if s[i] == '\n' {
-			out = append(out, cur)
-			cur = ""
-			continue
+			out = append(out, s[start:i])
+			start = i + 1
 		}
-		cur += string(rune(s[i]))
 	}
-	return append(out, cur)
+	return append(out, s[start:])
 }
 
 // a blank line is empty or holds only ASCII white space
